@@ -655,9 +655,19 @@ fn emit_case(out: &mut impl Write, cid: &str, lang_id: &str, lang: &Language, pa
     // (b) ranges; the cursor `cur` is reused for all of them (history), then checked against U again
     let nr = if thorough { 8 } else { 4 };
     for i in 0..nr {
-        let (a, b) = rand_point_range(&mut rng, text, &bounds);
-        let mode_contain = rng.chance(1, 3);
-        let use_point = rng.chance(1, 2);
+        let (mut a, mut b) = rand_point_range(&mut rng, text, &bounds);
+        let mut mode_contain = rng.chance(1, 3);
+        let mut use_point = rng.chance(1, 2);
+        if let Ok(o) = std::env::var("C11_RANGE") {
+            // debugging aid: "<i|w> <b|p> <start> <end>" overrides every generated range
+            let f: Vec<&str> = o.split_whitespace().collect();
+            if f.len() == 4 {
+                mode_contain = f[0] == "w";
+                use_point = f[1] == "p";
+                a = f[2].parse().unwrap_or(a);
+                b = f[3].parse().unwrap_or(b);
+            }
+        }
         let mut cfg = Cfg::default();
         let (pa, pb) = (pt_at(text, a), pt_at(text, b));
         let kind;
